@@ -37,7 +37,7 @@ def run(ctx: Ctx):
     wd = workdir(PID)
     r = tlc.run("SecsIBlockVec", cfg_text="", workdir=wd, workers=1, what="vectors", coverage=False, timeout=900)
     tlc.require_ok(r, "SecsIBlockVec")
-    hv, lv, bv = r.tagged("HV"), r.tagged("LV"), r.tagged("BV")
+    hv, lv, bv, kv = r.tagged("HV"), r.tagged("LV"), r.tagged("BV"), r.tagged("KV")
     if len(hv) < 500 or len(lv) < 9 or len(bv) < 12:
         raise Machinery("SECS-I universe too small")
     r2 = tlc.run("Reassembly", cfg_text="SPECIFICATION Spec\nCONSTANTS NMsg = 3\n NBlk = 3\nINVARIANT Intact\nINVARIANT AllDelivered\n"
@@ -70,6 +70,23 @@ def run(ctx: Ctx):
                 ctx.violation({"check": "block-decode", "h": h, "got": back, "what": f"decoded SECS-I header differs: {back} vs {exp}"})
         except Exception as exc:  # noqa: BLE001
             ctx.violation({"check": "block-decode", "h": h, "error": type(exc).__name__, "what": f"decode of valid block raised {exc!r}"})
+    # ---- block numbers across the 15-bit range
+    for v in kv:
+        want = bytes(v["block"])
+        try:
+            blk = SecsIBlock.decode(want)
+            ok = blk is not None and blk.header.block == v["blk"] and blk.header.last_block == v["e"] and bytes(blk.data) == pattern(3)
+            again = bytes(blk.encode()) if blk is not None else b""
+        except Exception as exc:  # noqa: BLE001
+            ok, again = False, repr(exc).encode()
+        if not ok or again != want:
+            ctx.violation({"check": "block-number", "blk": v["blk"], "e": v["e"],
+                           "what": f"block number {v['blk']} (E={v['e']}): valid block {want[:8].hex()} decodes wrongly / is rejected"})
+        hdr = SecsIHeader(0x01020304, 258, 6, 11, v["blk"], True, True, v["e"])
+        got = bytes(SecsIBlock(hdr, pattern(3)).encode())
+        if got != want:
+            ctx.violation({"check": "block-number", "blk": v["blk"], "e": v["e"], "got": got[:8].hex(), "want": want[:8].hex(),
+                           "what": f"block number {v['blk']} (E={v['e']}) encodes to {got[:8].hex()} instead of {want[:8].hex()}"})
     # ---- body length vectors (explicit)
     h0 = {"r": True, "dev": 258, "w": True, "s": 6, "f": 11, "sys": [1, 2, 3, 4]}
     for v in lv:
@@ -111,7 +128,7 @@ def run(ctx: Ctx):
     for n in (0, 1, 17, 244):
         blk = bytes(SecsIMessage(mk_header(h0, SecsIHeader), pattern(n)).blocks[0].encode())
         for i in range(len(blk)):
-            for x in {(blk[i] + 1) % 256, blk[i] ^ 0x80, 0, 255} - {blk[i]}:
+            for x in ({(blk[i] + 1) % 256, 0, 255} | {blk[i] ^ (1 << k) for k in range(8)}) - {blk[i]}:
                 c = blk[:i] + bytes([x]) + blk[i + 1:]
                 ncorr += 1
                 try:
@@ -171,7 +188,7 @@ def run(ctx: Ctx):
     s = simrt.run(main)
     if s.outcome != "done" or s.errors:
         raise Machinery(f"reassembly run failed: {s.outcome} {s.errors[:1]}")
-    ctx.evaluations += len(hv) + len(lv) + len(bv) + ncorr + merges
+    ctx.evaluations += len(hv) + len(lv) + len(bv) + len(kv) + ncorr + merges
     ctx.nontrivial += len(hv) + len(lv) + ncorr
     ctx.traces += merges
     ctx.sample({"header_vector": hv[0]})
